@@ -396,6 +396,9 @@ def handle (S : Session) (toks : List String) : Session × String :=
       let (d, o) := expandBlock S.ctx S.diag sz
       ({ S with diag := d }, showOutcome o ++ " " ++ dumpDiag d)
     | none => bad
+  | "FALLBACK" :: sp :: succs => match parseSpace n sp, parseSpaces n succs with
+    | some p, some qs => (S, String.intercalate " / " (sortStrs ((fallbackAttrs N p qs).map showAttr)))
+    | _, _ => bad
   | "SYMSEEDS" :: mode :: sp :: rest =>
     -- mode: "loop0" / "loop1" = compute_attractors_symbolic(seeds_only = 0/1), "node" = seed logic of node_attractor_seeds
     let motT := rest.takeWhile (· ≠ ";")
